@@ -7,10 +7,13 @@ pub fn write(
     config: &mut MinidumpWriter,
     buffer: &mut DumpBuf,
 ) -> Result<MDRawDirectory, errors::SectionMemInfoListError> {
-    let maps = procfs_core::process::MemoryMaps::from_file(std::path::PathBuf::from(format!(
-        "/proc/{}/maps",
-        config.blamed_thread
-    )))?;
+    let maps_path = std::path::PathBuf::from(format!("/proc/{}/maps", config.blamed_thread));
+    // Mapped file names are arbitrary bytes, the parser wants UTF-8 text.
+    let maps_bytes = std::fs::read(&maps_path)
+        .map_err(|e| procfs_core::ProcError::Io(e, Some(maps_path.clone())))?;
+    let maps = procfs_core::process::MemoryMaps::from_read(
+        String::from_utf8_lossy(&maps_bytes).as_bytes(),
+    )?;
 
     let list_header = MemoryWriter::alloc_with_val(
         buffer,
